@@ -45,7 +45,7 @@ META = {
         "page content is kept as a list of 117 operator invocations covering 71 distinct operators: every operand x {the 16 wrong-type/extreme values, 0, nested array, mixed array, removed, duplicated}, every operator dropped "
         "(its operands stay on the stack), every operator repeated without operands, every operator replaced by each of the 76 other keywords (all operators of the seed, d0, d1, R, obj, endstream, an unknown word); token faults: in every unfiltered text-like stream (ToUnicode and embedded CMaps, Type3 glyph procedures, content streams) "
         "every white-space delimited token replaced by each of 16 tokens (nothing, <>, 1-, 4- and 8-byte hex strings, 0, 7, -1, 99999999999, a name, a string, [ ] << >>, an unknown word). "
-        "One fault per execution, each run through the listed entry points under a counted work budget (sys.monitoring "
+        "The undamaged seeds and every 7th structural fault are also run with the library's loggers at DEBUG (the --debug configuration). One fault per execution, each run through the listed entry points under a counted work budget (sys.monitoring "
         "PY_START+JUMP events <= 50 x the undamaged seed's count + 100000 + 2000 x file length). non-trivial = the damaged file differs from the seed "
         "and the outcome was judged; a 'scaling' family runs valid documents of 16/64/256 pages (classic table; everything in one "
         "object stream) and requires that quadrupling the size multiplies the counted events by at most 6; distinct outcomes = (entry point, outcome class, exception type, raising function). "
@@ -529,6 +529,7 @@ def check_scaling(st) -> None:
 def shards(tier):
     t = TIERS[tier]
     out = [("scaling",)]
+    out += [("debuglog", name) for name in t["seeds"]]
     for name in t["seeds"]:
         fs = structural_faults(name)
         for i in range(0, len(fs), 120):
@@ -562,6 +563,29 @@ def run_shard(shard, tier, st):
         return
     name = shard[1]
     seed_bytes = S.build(name)
+    if shard[0] == "debuglog":
+        # configuration: the library's loggers at DEBUG (pdf2txt --debug); the runner switches logging off globally, this shard switches it on.
+        # The undamaged seed and every 7th structural fault are run again: log statements must not change the outcome class.
+        import logging
+
+        lg = logging.getLogger("pdfminer")
+        h = logging.NullHandler()
+        lg.addHandler(h)
+        lg.setLevel(logging.DEBUG)
+        lg.propagate = False
+        disabled = logging.root.manager.disable
+        logging.disable(logging.NOTSET)
+        try:
+            judge(st, name, ("debuglog", "undamaged"), seed_bytes, t["entries"], b"")
+            for f in structural_faults(name)[::7]:
+                judge(st, name, ("debuglog",) + f, materialise(name, f), t["entries"], seed_bytes)
+            st.sample({"seed": name, "family": "debuglog", "logger": "pdfminer", "level": "DEBUG"})
+        finally:
+            logging.disable(disabled)
+            lg.removeHandler(h)
+            lg.setLevel(logging.NOTSET)
+            lg.propagate = True
+        return
     if shard[0] == "struct":
         fs = structural_faults(name)[shard[2]:shard[3]]
         for f in fs:
